@@ -552,8 +552,8 @@ def run_ex(ctx, p):
         visited.add(key)
         if level > 1 or first:
           ctx.count(f"ex:states-to-expand:after-len{level}")
-        if res.finding:
-          rec.count("ex:extended-past-known-finding")
+        if res.finding and (level > 1 or first):
+          ctx.count("ex:extended-past-known-finding")
         nxt.append((hist, res.post, nontriv, res.issue_keys))
     if level == 1:
       ctx.count("ex:frontier-after-level1", len(nxt) if first else 0)
